@@ -75,7 +75,7 @@ def remote_cases(tier, rng):
     ev = []
     def E(**kw):
         d = {"id": len(ev) + 1, "buffer": 3, "pre": 5, "post": 6, "subs": 2, "rel": "mixed", "pool": 2, "chunk": 0, "size": 40, "end": ""}
-        d.update(kw); ev.append(d)
+        d.update(kw); d["stagger"] = len(ev) % 6 == 2; ev.append(d)
     for buffer in (0, 1, 3):
         for pre in (0, 1, 3, 5):
             E(buffer=buffer, pre=pre, post=rng.choice([1, 4, 9]), rel=rng.choice(["link", "monitor", "mixed"]), subs=rng.choice([1, 2, 3]), pool=rng.choice([1, 2, 3]))
